@@ -27,6 +27,9 @@ GROUPS = [
     Group("lpnum/anybytes", "lpnum_readstr.c", tus=["eg_lpnum.c", "read_lp_mpq.c"], model=MODEL, defines=["FN_anybytes"] + EXACT, dfcc=False,
           unwind=8, kind="bounded", bound="every string of at most 5 bytes over {0,7,.,+,-,/,space,x}; loops completely unwound", timeout=900, namebuf=512,
           functions=["mpq_EGlpNumReadStrXc"], props=["C11", "C17"]),
+    Group("lpnum/anybytes_tok", "lpnum_readstr.c", tus=["eg_lpnum.c", "read_lp_mpq.c"], model=MODEL, defines=["FN_anybytes", "NB=4", "QSV_GMP_TOKENS"] + EXACT, dfcc=False, leak=True, flags=["--no-malloc-may-fail"],
+          unwind=8, kind="bounded", bound="every string of at most 4 bytes over {0,7,.,+,-,/,space,x}; loops completely unwound; GMP model EXACT+NARROW with TOKENS", timeout=1500, namebuf=512,
+          functions=["mpq_EGlpNumReadStrXc"], props=["C18", "C11", "C17"]),
     Group("rdr/mps_next_bound", "mps_bound.c", tus=["read_mps_mpq.c"], model=MODEL, dfcc=False, unwind=14, kind="bounded", namebuf=512,
           bound="constructed bound-value texts: optional leading blank, optional sign, INF or INFINITY in any letter case, followed by NUL / newline / blank / another character; loops completely unwound; reader buffer capacity 512",
           functions=["ILLmps_next_bound", "mps_skip_comment"], props=["C10", "C11", "C17"],
